@@ -34,4 +34,8 @@ META.update({
  "C16": {"text": "Fault-free timed runs with the dynamic block time extension; oracle on virtual instants of PrepareRequest broadcasts: gap >= TimePerBlock, empty proposal only after MaxTimePerBlock, notification during the extended wait proposes within the call, no ChangeView/RecoveryRequest, SubscribeForTxs only when configured.",
          "design_ref": "DESIGN.md 4/C16", "note": NOTE_TIMED, "technique": "property-based testing (rapid) over a discrete-event simulation; timing oracle on broadcast instants"},
 })
+META.update({
+ "C06": {"text": "The N x view grid is enumerated completely (exhaustive: true in the evidence) at boundary heights incl. the int32 and uint32 edges, against an independent reference; rotation properties are checked by marking visited indices.",
+         "design_ref": "DESIGN.md 4/C06", "note": "Trusted base: the reference arithmetic in the test (search for F, int64/big.Int for the primary). Heights are sampled at boundaries + random draws, not enumerated.", "technique": "exhaustive generation of the finite N x view domain + rapid-drawn heights; differential oracle against a reference implementation"},
+})
 NOT_APPLICABLE = []
